@@ -322,11 +322,11 @@ func exec(spec string) (res engine.Result) {
 		res.Outcome = "val=" + o.val + " trace=" + strings.Join(o.trace, ",") + " err=" + o.err.String()
 		return
 	case strings.HasPrefix(spec, "count:"):
-		// count:<coreFrom>:<spine 0|1>:<dev> - size of an enumeration (development aid)
-		var cf, sp, dev int
-		_, _ = fmt.Sscanf(spec, "count:%d:%d:%d", &cf, &sp, &dev)
+		// count:<coreFrom>:<spineFrom>:<spine 0|1>:<dev> - size of an enumeration (development aid)
+		var cf, sf, sp, dev int
+		_, _ = fmt.Sscanf(spec, "count:%d:%d:%d:%d", &cf, &sf, &sp, &dev)
 		n := 0
-		newGenerator(genOpts{coreFrom: cf, spine: sp == 1}).roots(dev, func(string) { n++ })
+		newGenerator(genOpts{coreFrom: cf, spineFrom: sf, spine: sp == 1}).roots(dev, func(string) { n++ })
 		res.Outcome = fmt.Sprint(n)
 		return
 	case strings.HasPrefix(spec, "bench:"):
@@ -532,7 +532,11 @@ func attribute(t *term, prefix string, whole *verdict) (out []engine.Failure) {
 }
 
 func pairSig(outer *tmpl, i int, inner, kind string) string {
-	return fmt.Sprintf("at=%s inner=%s:%s kind=%s", outer.holes[i].class, tmplByName[inner].family, inner, kind)
+	class := outer.holes[i].class
+	if strings.HasPrefix(class, "function-body") {
+		class += "-of-" + outer.family // what matters is who calls the function
+	}
+	return fmt.Sprintf("at=%s inner=%s:%s kind=%s", class, tmplByName[inner].family, inner, kind)
 }
 
 // coreSig names a reduced failing term; terms of one or two templates get the
@@ -554,7 +558,33 @@ func coreSig(core *term, kind string) string {
 			return pairSig(tp, at, core.kids[at].kind, kind)
 		}
 	}
-	return fmt.Sprintf("core=%s kind=%s", core, kind)
+	// a chain (one filled hole per node) is named by the path of position classes
+	var b strings.Builder
+	for n := core; ; {
+		b.WriteString(n.kind)
+		if !isTemplate(n) && !strings.HasPrefix(n.kind, "$c") {
+			return fmt.Sprintf("core=%s kind=%s", b.String(), kind)
+		}
+		var next *term
+		at := -1
+		for i, k := range n.kids {
+			if k.kind != "_" {
+				if next != nil {
+					return fmt.Sprintf("core=%s kind=%s", core, kind)
+				}
+				next, at = k, i
+			}
+		}
+		if next == nil {
+			return fmt.Sprintf("core=%s kind=%s", b.String(), kind)
+		}
+		if isTemplate(n) {
+			b.WriteString("[" + tmplByName[n.kind].holes[at].class + "]")
+		} else {
+			b.WriteString("[call-argument]")
+		}
+		n = next
+	}
 }
 
 // bench (development aid): bench:<skip>:<n> executes n cases of the quick tier after skipping skip, timing the phases.
